@@ -31,7 +31,8 @@ ObsSt(e) == [ conn  |-> SetOf(e.st.conn),
               binds |-> SetOf(e.st.binds),
               csub  |-> SetOf(e.st.csub),
               cbind |-> SetOf(e.st.cbind),
-              data  |-> [c \in Cells |-> e.st.data[c]] ]
+              data  |-> [c \in Cells |-> e.st.data[c]],
+              nsub  |-> 0, nbind |-> 0 ]
 
 NormDg(d) == [k |-> d.k, ok |-> d.ok, ref |-> d.ref, src |-> d.src, dst |-> d.dst,
               fn |-> d.fn, val |-> d.val, ents |-> SetOf(d.ents)]
